@@ -516,13 +516,11 @@ theorem update_ctrl_w_inrange (cl : List A → List (List A)) (al : List A → B
         by_cases hp : al g <;> simp [getV, setV, hi, hg, hp]
       · intro cc i; simp [getV, setV]
       · omega
-      · omega
       · simp [envSize, vSize]; omega
     · intro cc i; simp [getV]
     · intro cc i g hi hg
       by_cases hp : al g <;> simp [getV, setV, hi, hg, hp]
     · intro cc i; simp [getV, setV]
-    · omega
     · omega
     · simp [envSize, vSize]; omega
   obtain ⟨e, hsw, h1, h2, h3, h4, h5⟩ := hsw
@@ -571,5 +569,113 @@ theorem update_ctrl_w (cl : List A → List (List A)) (al : List A → Bool) (m 
     · by_cases h2 : m.cursor > m.content.length
       · exact update_ctrl_w_past cl al m c a sup t h2
       · exact update_ctrl_w_inrange cl al m c a sup t h0 ⟨by omega, by omega⟩
+
+theorem update_alt_f_neg (cl : List A → List (List A)) (al : List A → Bool) (m : TIC A) (c a sup : Bool) (t : List A)
+    (h0 : m.cursor < 0) :
+    tiRunUpdate genTi cl al m (.key "Alt+f" c a sup t) = TextInputCl.update cl al m (.key "Alt+f" c a sup t) := by
+  obtain ⟨content, cursor, offset, paste⟩ := m
+  simp only at h0
+  have h1 : cursor < content.length := by omega
+  have h3 : ¬ (0 ≤ cursor) := by omega
+  ti_arm [cmpI, h0, h1, h3, loopN]
+
+theorem update_alt_f_nonneg (cl : List A → List (List A)) (al : List A → Bool) (m : TIC A) (c a sup : Bool) (t : List A)
+    (h0 : 0 ≤ m.cursor) :
+    tiRunUpdate genTi cl al m (.key "Alt+f" c a sup t) = TextInputCl.update cl al m (.key "Alt+f" c a sup t) := by
+  obtain ⟨content, cursor, offset, paste⟩ := m
+  simp only at h0
+  obtain ⟨k, rfl⟩ : ∃ k : Nat, cursor = k := ⟨cursor.toNat, by omega⟩
+  generalize hN1 : steps (fun g => !al g) (content.drop k) = n1
+  have e2 : ((k : Int) + (n1 : Int)).toNat = k + n1 := by omega
+  generalize hN2 : steps al (content.drop (k + n1)) = n2
+  have hsw : ∃ e1, execS (tiCx1 genTi cl al) (B.head tiUpdate.body) (env0 ⟨content, k, offset, paste⟩ (.key "Alt+f" c a sup t)) =
+      .ok e1 ∧ getV e1 "m.content" = .chars content ∧
+      getV e1 "m.cursor" = .num ((k : Int) + n1 + n2) ∧ getV e1 "m.offset" = .num offset ∧
+      getV e1 "m.paste" = .str paste ∧ getV e1 "deferred" = .err "unbound deferred" := by
+    sw_simp [cmpI]
+    rw [fwdLoopSpec content (fun g => !al g)
+      (mkKey content offset paste "Alt+f" c a sup t (fun i => [("l1", .num i)]))
+      (c := k) (i := (k : Int))]
+    · simp [getV, setV, hN1]
+      rw [fwdLoopSpec content al
+        (mkKey content offset paste "Alt+f" c a sup t (fun i => [("l1", .num ((k : Int) + n1)), ("l2", .num i)]))
+        (c := (k : Int) + n1) (i := (k : Int) + n1)]
+      · simp [e2, getV, setV, hN2]
+      · intro cc i; simp [getV]
+      · intro cc i g hi hg
+        by_cases hp : al g <;> simp [getV, setV, hi, hg, hp]
+      · intro cc i; simp [getV, setV]
+      · omega
+      · simp [envSize, vSize]; omega
+    · intro cc i; simp [getV]
+    · intro cc i g hi hg
+      by_cases hp : al g <;> simp [getV, setV, hi, hg, hp]
+    · intro cc i; simp [getV, setV]
+    · omega
+    · simp [envSize, vSize]; omega
+  obtain ⟨e, hsw, h1, h2, h3, h4, h5⟩ := hsw
+  rw [run_ok cl al _ _ e _ _ _ _ _ hsw h1 h2 h3 h4 h5]
+  have hk : ¬ ((k : Int) < 0) := by omega
+  simp [TextInputCl.update, TextInputCl.toG, TextInputCl.ofG, TextInput.keySwitch, hk, fwdLoop_steps, hN1, hN2, e2]
+
+theorem update_alt_f (cl : List A → List (List A)) (al : List A → Bool) (m : TIC A) (c a sup : Bool) (t : List A) :
+    tiRunUpdate genTi cl al m (.key "Alt+f" c a sup t) = TextInputCl.update cl al m (.key "Alt+f" c a sup t) := by
+  by_cases h0 : m.cursor < 0
+  · exact update_alt_f_neg cl al m c a sup t h0
+  · exact update_alt_f_nonneg cl al m c a sup t (by omega)
+
+theorem update_ctrl_right_neg (cl : List A → List (List A)) (al : List A → Bool) (m : TIC A) (c a sup : Bool) (t : List A)
+    (h0 : m.cursor < 0) :
+    tiRunUpdate genTi cl al m (.key "Ctrl+Right" c a sup t) = TextInputCl.update cl al m (.key "Ctrl+Right" c a sup t) := by
+  obtain ⟨content, cursor, offset, paste⟩ := m
+  simp only at h0
+  have h1 : cursor < content.length := by omega
+  have h3 : ¬ (0 ≤ cursor) := by omega
+  ti_arm [cmpI, h0, h1, h3, loopN]
+
+theorem update_ctrl_right_nonneg (cl : List A → List (List A)) (al : List A → Bool) (m : TIC A) (c a sup : Bool) (t : List A)
+    (h0 : 0 ≤ m.cursor) :
+    tiRunUpdate genTi cl al m (.key "Ctrl+Right" c a sup t) = TextInputCl.update cl al m (.key "Ctrl+Right" c a sup t) := by
+  obtain ⟨content, cursor, offset, paste⟩ := m
+  simp only at h0
+  obtain ⟨k, rfl⟩ : ∃ k : Nat, cursor = k := ⟨cursor.toNat, by omega⟩
+  generalize hN1 : steps (fun g => !al g) (content.drop k) = n1
+  have e2 : ((k : Int) + (n1 : Int)).toNat = k + n1 := by omega
+  generalize hN2 : steps al (content.drop (k + n1)) = n2
+  have hsw : ∃ e1, execS (tiCx1 genTi cl al) (B.head tiUpdate.body) (env0 ⟨content, k, offset, paste⟩ (.key "Ctrl+Right" c a sup t)) =
+      .ok e1 ∧ getV e1 "m.content" = .chars content ∧
+      getV e1 "m.cursor" = .num ((k : Int) + n1 + n2) ∧ getV e1 "m.offset" = .num offset ∧
+      getV e1 "m.paste" = .str paste ∧ getV e1 "deferred" = .err "unbound deferred" := by
+    sw_simp [cmpI]
+    rw [fwdLoopSpec content (fun g => !al g)
+      (mkKey content offset paste "Ctrl+Right" c a sup t (fun i => [("l1", .num i)]))
+      (c := k) (i := (k : Int))]
+    · simp [getV, setV, hN1]
+      rw [fwdLoopSpec content al
+        (mkKey content offset paste "Ctrl+Right" c a sup t (fun i => [("l1", .num ((k : Int) + n1)), ("l2", .num i)]))
+        (c := (k : Int) + n1) (i := (k : Int) + n1)]
+      · simp [e2, getV, setV, hN2]
+      · intro cc i; simp [getV]
+      · intro cc i g hi hg
+        by_cases hp : al g <;> simp [getV, setV, hi, hg, hp]
+      · intro cc i; simp [getV, setV]
+      · omega
+      · simp [envSize, vSize]; omega
+    · intro cc i; simp [getV]
+    · intro cc i g hi hg
+      by_cases hp : al g <;> simp [getV, setV, hi, hg, hp]
+    · intro cc i; simp [getV, setV]
+    · omega
+    · simp [envSize, vSize]; omega
+  obtain ⟨e, hsw, h1, h2, h3, h4, h5⟩ := hsw
+  rw [run_ok cl al _ _ e _ _ _ _ _ hsw h1 h2 h3 h4 h5]
+  have hk : ¬ ((k : Int) < 0) := by omega
+  simp [TextInputCl.update, TextInputCl.toG, TextInputCl.ofG, TextInput.keySwitch, hk, fwdLoop_steps, hN1, hN2, e2]
+
+theorem update_ctrl_right (cl : List A → List (List A)) (al : List A → Bool) (m : TIC A) (c a sup : Bool) (t : List A) :
+    tiRunUpdate genTi cl al m (.key "Ctrl+Right" c a sup t) = TextInputCl.update cl al m (.key "Ctrl+Right" c a sup t) := by
+  by_cases h0 : m.cursor < 0
+  · exact update_ctrl_right_neg cl al m c a sup t h0
+  · exact update_ctrl_right_nonneg cl al m c a sup t (by omega)
 
 end VaxisModel.Lemmas.EdLangTIBody
